@@ -3,7 +3,7 @@
    render both.  Output of a case: model lines, then "#SPEC", then oracle lines (or one line
    "EXEMPT <reason>" when the oracle does not apply, e.g. a schema that is not well-formed). *)
 From GT Require Export Sexp Render.
-From GTS Require Import SpecLin Annot WfSchema SpecValid.
+From GTS Require Import SpecLin Annot WfSchema SpecValid SpecCollect SpecRules.
 Local Open Scope string_scope.
 
 Definition render_annot (s : sdocument) (d : document) : list string :=
@@ -11,6 +11,39 @@ Definition render_annot (s : sdocument) (d : document) : list string :=
 
 Definition spec_section (s : sdocument) (lines : list string) : list string :=
   "#SPEC" :: (if wf_schema s then lines else ["EXEMPT schema-not-well-formed"]).
+
+(* ---- C19: collect_fields on every selection set x every object type ---- *)
+Fixpoint sel_selsets (x : selection) : list (span * list selection) :=
+  match x with
+  | SField _ _ _ _ _ sp ss => (sp, ss) :: flat_map sel_selsets ss
+  | SInline _ _ _ sp ss => (sp, ss) :: flat_map sel_selsets ss
+  | SSpread _ _ _ => []
+  end.
+Definition all_selsets (d : document) : list (span * list selection) :=
+  flat_map (fun x => match x with
+                     | DOp o => (o_span o, o_sels o) :: flat_map sel_selsets (o_sels o)
+                     | DFrag f => (fr_span f, fr_sels f) :: flat_map sel_selsets (fr_sels f)
+                     end) d.
+
+Definition s_group (g : name * list selection) : string :=
+  fst g ++ "=" ++ sep_by "," (map (fun f => sel_name f ++ "@" ++ s_pos (sel_pos f)) (snd g)).
+
+(* groups are printed sorted by key by the harness; here: in map order, the checker sorts *)
+Definition render_groups (groups : list (name * list selection)) : string := sep_by ";" (map s_group groups).
+
+Definition object_defs (s : sdocument) : list type_def :=
+  filter td_is_object (type_defs s).
+
+Definition render_collect (s : sdocument) (d : document) (spec : bool) : list string :=
+  List.app ("#UNORDERED" ::
+    flat_map (fun ss : span * list selection =>
+                map (fun t =>
+                       "S " ++ s_pos (fst (fst ss)) ++ " " ++ td_name t ++ " | " ++
+                       (if spec then render_groups (spec_collect s d t (snd ss))
+                        else match collect_fields s d t (snd ss) with
+                             | Some g => render_groups g
+                             | None => "OUTOFFUEL"
+                             end)) (object_defs s)) (all_selsets d)) ["#ORDERED"].
 
 Definition run_case (s : sdocument) (op : string) (args : list sexp) : list string :=
   if String.eqb op "trace" then
@@ -49,6 +82,16 @@ Definition run_case (s : sdocument) (op : string) (args : list sexp) : list stri
                      ["UNION ok"; "CODES ok"; "MSG ok"; "LOCS ok"; "JSON ok"; "DEFAULTPLAN ok"]
         | _, _ => ["BADINPUT"]
         end
+    | _ => ["BADINPUT"]
+    end
+  else if String.eqb op "collect" then
+    match args with
+    | [d] => match d_document d with
+             | Some d => List.app (render_collect s d false)
+                                  (spec_section s (if distinct_fragments d then render_collect s d true
+                                                   else ["EXEMPT duplicate-fragment-names"]))
+             | None => ["BADINPUT"]
+             end
     | _ => ["BADINPUT"]
     end
   else ["BADOP"].
